@@ -223,16 +223,26 @@ pub struct UdpTarget {
     pub addr: SocketAddr,
     pub received: Arc<Mutex<Vec<(SocketAddr, Vec<u8>)>>>,
     pub sock: Arc<UdpSocket>,
+    task: tokio::task::JoinHandle<()>,
 }
 
 impl UdpTarget {
     pub async fn start(ip: IpAddr) -> Result<Self, Fail> {
-        let sock = UdpSocket::bind(SocketAddr::new(ip, 0)).await.map_err(|e| infra(format!("udp target bind on {ip}: {e}")))?;
+        Self::start_at(SocketAddr::new(ip, 0), Default::default()).await
+    }
+    /// Close the socket (datagrams to the port are answered with ICMP port unreachable from now on);
+    /// returns the address and the record so that the target can come back with `start_at`.
+    pub async fn stop(self) -> (SocketAddr, Arc<Mutex<Vec<(SocketAddr, Vec<u8>)>>>) {
+        self.task.abort();
+        let _ = self.task.await;
+        (self.addr, self.received)
+    }
+    pub async fn start_at(at: SocketAddr, received: Arc<Mutex<Vec<(SocketAddr, Vec<u8>)>>>) -> Result<Self, Fail> {
+        let sock = UdpSocket::bind(at).await.map_err(|e| infra(format!("udp target bind on {at}: {e}")))?;
         let addr = sock.local_addr().map_err(|e| infra(e.to_string()))?;
         let sock = Arc::new(sock);
-        let received: Arc<Mutex<Vec<(SocketAddr, Vec<u8>)>>> = Default::default();
         let (s2, r2) = (sock.clone(), received.clone());
-        tokio::spawn(async move {
+        let task = tokio::spawn(async move {
             let mut buf = vec![0u8; 70000];
             loop {
                 match s2.recv_from(&mut buf).await {
@@ -241,7 +251,7 @@ impl UdpTarget {
                 }
             }
         });
-        Ok(Self { addr, received, sock })
+        Ok(Self { addr, received, sock, task })
     }
     pub fn count(&self) -> usize {
         self.received.lock().unwrap().len()
